@@ -317,11 +317,11 @@ def _ShardWork(job):
     styles[c['style']] = styles.get(c['style'], 0) + 1
   res.update({'name': name, 'path': path, 'n_cases': len(cases),
               'per_source': per_source, 'styles': styles})
-  if res['fails'] or res['error']:
+  if res['fails']:
     failing = {f['id'] for f in res['fails']}
     res['failing_cases'] = [c for c in cases if c['id'] in failing][:200]
-  else:
-    os.unlink(path)
+  if not res['error']:
+    os.unlink(path)    # failing cases live on as self-contained replay files
   return res
 
 
@@ -624,7 +624,7 @@ def Plan(tier, lem, rng):
                       ordered=thorough and small)
     plan[u + '_pairs'] = (g, n, 0, True)
     g, n, complete = Sampled(TripleSource(u, U3, None, both_vias=thorough),
-                             (50000 if small else 40000) if thorough else 4000,
+                             (40000 if small else 25000) if thorough else 4000,
                              rng)
     plan[u + '_triples'] = (g, n, 0, complete)
   W = lem['wide']['U']
@@ -637,11 +637,11 @@ def Plan(tier, lem, rng):
   g, n, complete = Sampled(FieldSource('wide', W, W3, ['0', 'a', 'b']),
                            big if thorough else 5000, rng)
   plan['field'] = (g, n, 0, complete)
-  g, n = ListSource(RandomPairs(rng, 100000 if thorough else 8000))
+  g, n = ListSource(RandomPairs(rng, 60000 if thorough else 8000))
   plan['random_pairs'] = (g, n, 0, False)
   g, n = ListSource(RandomTriples(rng, 20000 if thorough else 1500, thorough))
   plan['random_triples'] = (g, n, 0, False)
-  g, n = ListSource(SharedCases(rng, 16000 if thorough else 1600))
+  g, n = ListSource(SharedCases(rng, 10000 if thorough else 1600))
   plan['shared'] = (g, n, 0, False)
   return plan
 
